@@ -242,7 +242,8 @@ export class TypeGen {
   }
   recordType(depth) {
     const r = this.rng;
-    const val = this.type(depth - 1);
+    // (records whose value is unknown / any are printed through a special case of the schema printer)
+    const val = this.f.any && r.chance(0.15) ? A.kw(r.pick(["unknown", "any"])) : this.type(depth - 1);
     const keyOpts = [
       [5, () => A.kw("string")],
       [3, () => A.union(r.shuffle(["a", "b", "c", "x-y", "0"]).slice(0, 1 + r.below(3)).map((s) => A.lit(s)))],
@@ -417,6 +418,15 @@ export class TypeGen {
       const all = [A.prop(key, dv), ...ps];
       // sometimes a second property that would qualify as discriminator as well
       if (second) all.push(A.prop(second, A.lit(`${v}_${i}`)));
+      // sometimes a tagged member also carries an index signature (written inline or as an
+      // intersection with a Record): the tag must be a string for the signature to admit it
+      if (this.f.records && !second && r.chance(0.15)) {
+        const val = r.pick([A.kw("string"), A.union([A.kw("string"), A.kw("number")]), A.kw("string")]);
+        // (TypeScript requires every named property to be assignable to the index signature's value)
+        const named = all.filter((p) => (p.t.k === "lit" && typeof p.t.v === "string") || (p.t.k === "kw" && p.t.name === "string") || (p.name === key && p.t.k !== "union") || (p.name === key && p.t.k === "union"));
+        if (r.chance(0.5)) return A.obj(named, { key: A.kw("string"), val, pname: "k" });
+        return A.inter([A.obj(named), A.util("Record", [A.kw("string"), val])]);
+      }
       return A.obj(r.chance(0.5) ? all : r.shuffle(all));
     });
     if (r.chance(0.2)) {
